@@ -41,15 +41,44 @@ def main():
                 for n in r["notes"]:
                     print("      note:", n)
                 for f in r["failures"]:
-                    print("      FAIL clause=%s path=%s note=%s" % (f["clause"], f["path"], f.get("note")))
-                    print("           model=%s" % json.dumps(f["model"])[:400])
-                    print("           replay=%s" % json.dumps(f.get("replay"))[:600])
+                    rp = f.get("replay") or {}
+                    mv = {k: v for k, v in (rp.get("values") or f["model"] or {}).items() if k not in ("sin", "cos", "PI")}
+                    for k, v in list(mv.items()):
+                        if isinstance(v, list) and len(v) == 2:
+                            mv[k] = round(v[0] / v[1], 6)
+                        elif isinstance(v, float):
+                            mv[k] = round(v, 6)
+                    print("      FAIL clause=%s path=%s reproduced=%s %s" % (f["clause"], f["path"], rp.get("reproduced"),
+                                                                        f.get("note") or ""))
+                    if a.v:
+                        print("           input=%s" % json.dumps(mv)[:500])
                 if d.get("mismatch"):
                     print("      diff mismatch:", d["mismatch"][:2])
-                if d.get("clause_false"):
-                    print("      clause false on real code:", d["clause_false"][:2])
+                if d.get("clause_false") and a.v:
+                    print("      clause false on real code:", str(d["clause_false"][:1])[:300])
         print("total %.1fs, %d obligations: %s" % (time.time() - t0, len(recs), {
             s: sum(1 for r in recs if r["status"] == s) for s in set(r["status"] for r in recs)}))
+        return 0
+    if a.cmd == "baseline":
+        # records which obligation clauses are discharged on the current (unchanged) tree
+        from pyvc import registry, runner
+
+        registry.load_all()
+        names = [n for n in registry.ORDER if (a.arg or "") in n]
+        recs = runner.run_many(names, "quick", seed, a.j, False)
+        path = os.path.join(os.path.dirname(os.path.dirname(os.path.abspath(__file__))), "baseline_obligations.json")
+        old = {}
+        if os.path.exists(path) and a.arg:
+            old = json.load(open(path))
+        for r in recs:
+            old[r["name"]] = {"props": r.get("props", []),
+                              "clauses": sorted(c for c, st in r.get("clauses", {}).items()
+                                                if st["sat"] == 0 and st["unknown"] == 0)}
+        json.dump(old, open(path, "w"), indent=0, sort_keys=True)
+        print("baseline ledger: %d obligations, %d discharged clauses" % (
+            len(old), sum(len(v["clauses"]) for v in old.values())))
+        bad = [r["name"] for r in recs if r["status"] != "proved"]
+        print("not fully proved:", bad[:20])
         return 0
     if a.cmd == "check":
         from pyvc import check
